@@ -706,7 +706,8 @@ RULE = ('scenarios = (limit L, direction, per-thread lists of (caller gap, size,
         'TQDMIOReader/TQDMIOWriter; one positioned stream gone over several times (pass to the end, rewind / seek to the middle / from '
         'the end, further passes) with the window bound over all bytes that passed; plus command-level cases = the real upload_objects / download_objects / snapshot / restore with a rate '
         'limit over many files/objects around and below the transfer chunk size against a recording backend under the virtual '
-        'clock (non-trivial = at least 20 transfers).  non-trivial = at least one sleep was requested (timing) / a rate-limited op slept '
+        'clock (non-trivial = at least 20 transfers), and sequences of two or three rate-limited commands with different limits on one '
+        'Repository object, each judged for its own limit with the data compared.  non-trivial = at least one sleep was requested (timing) / a rate-limited op slept '
         '(transparency); distinct = distinct scenario contents')
 
 
@@ -1194,6 +1195,143 @@ def check_command_case(case, rep):
     return False
 
 
+# --------------------------------------------------------------------------- sequences of rate-limited commands on ONE Repository
+def gen_sequence_case(rng, descending=None):
+    """two or three rate-limited commands, one after the other, on one long-lived Repository object, each with its own limit
+    (high then low, low then high): every command is bound by ITS limit"""
+    n = rng.choice([1, 2, 5])
+    limits = rng.sample([2048, 4096, 8192, 20000, 65536, 200000], rng.choice([2, 2, 3]))
+    if rng.random() < 0.5 if descending is None else descending:
+        limits.sort(reverse=True)          # at least half of the sequences go from a high limit to a lower one
+    elif descending is False:
+        limits.sort()
+    steps = []
+    for L in limits:
+        chunk = max(L // (n * 16), 1)
+        command = rng.choice(['upload_objects', 'download_objects', 'snapshot', 'restore'])
+        family = rng.choice(['small', 'mixed', 'mixed'])
+        target = L * rng.choice([2, 3])
+        sizes = []
+        while sum(sizes) < target and len(sizes) < 400:
+            sizes.append(rng.randint(1, chunk) if family == 'small' else
+                         rng.choice([rng.randint(1, chunk), chunk, rng.randint(chunk + 1, 8 * chunk)]))
+        steps.append({'command': command, 'L': L, 'sizes': sizes})
+    return {'probe': 'command_sequence', 'n': n, 'steps': steps, 'seed': rng.randrange(2 ** 32)}
+
+
+def run_sequence_case(case):
+    """returns per step: (events, chunk sizes, data problems) and PAUSE_LIMIT"""
+    import asyncio, random, shutil, tempfile
+    from pathlib import Path
+    from replicat.repository import Repository
+    import replicat.utils as U
+    sim = Sim(1, exact=False)
+    be = RecordingBackend(sim)
+    n = case['n']
+    r = random.Random(case['seed'])
+    d = Path(tempfile.mkdtemp(prefix='verif-c20seq-', dir=os.environ.get('VERIF_SCRATCH', '/var/tmp')))
+    cwd = os.getcwd()
+    results = []
+
+    async def go():
+        repo = Repository(be, concurrent=n, quiet=True, cache_directory=None)      # ONE object for the whole sequence
+        initialised = False
+        snapshots = []            # source directories snapshotted so far
+        for k, step in enumerate(case['steps']):
+            command, L, sizes = step['command'], step['L'], step['sizes']
+            problems = []
+            src = d / f'src{k}'
+            src.mkdir()
+            contents = {}
+            for i, sz in enumerate(sizes[:150]):
+                contents[f'f{i:04d}'] = r.randbytes(sz)
+            if sum(sizes[150:]):
+                contents['rest'] = r.randbytes(sum(sizes[150:]))
+            if command in ('snapshot', 'restore') and not initialised:
+                # stored objects about as long as the transfer chunk of the most generous limit of the sequence
+                chunk = max(max(s_['L'] for s_ in case['steps']) // (n * 16), 1)
+                mx = max(8, min(chunk, 4096) // 4 * 4)
+                await repo.init(settings={'encryption': None, 'chunking': {'min_length': max(1, mx // 2), 'max_length': mx}})
+                initialised = True
+            if command == 'upload_objects':
+                for name, data in contents.items():
+                    (src / name).write_bytes(data)
+                be.events.clear(); be.chunk_sizes.clear()
+                await repo.upload_objects([src / name for name in contents], rate_limit=L)
+                for name, data in contents.items():
+                    got = [v for key, v in be.objects.items() if key.endswith(f'src{k}/{name}')]
+                    if got != [data]:
+                        problems.append(f'uploaded object src{k}/{name} differs from its source')
+                want = 'up'
+            elif command == 'download_objects':
+                for name, data in contents.items():
+                    be.objects[f'dl{k}/{name}'] = data
+                be.events.clear(); be.chunk_sizes.clear()
+                await repo.download_objects(path=d / f'out{k}', object_regex=f'^dl{k}/', rate_limit=L)
+                for name, data in contents.items():
+                    f = d / f'out{k}' / f'dl{k}' / name
+                    if not f.is_file() or f.read_bytes() != data:
+                        problems.append(f'downloaded object dl{k}/{name} differs from what is stored')
+                want = 'down'
+            else:
+                for name, data in contents.items():
+                    (src / name).write_bytes(data)
+                be.events.clear(); be.chunk_sizes.clear()
+                await repo.snapshot(paths=[src], rate_limit=L if command == 'snapshot' else None)
+                snapshots.append((src, contents))
+                want = 'up'
+                if command == 'restore':
+                    be.events.clear(); be.chunk_sizes.clear()
+                    await repo.restore(path=d / f'out{k}', rate_limit=L)
+                    for sdir, cont in snapshots:
+                        for name, data in cont.items():
+                            hits = [f for f in (d / f'out{k}').rglob(name) if f.is_file() and sdir.name in f.parts]
+                            if len(hits) != 1 or hits[0].read_bytes() != data:
+                                problems.append(f'restored file {sdir.name}/{name} differs from its source')
+                    want = 'down'
+            results.append(([(t, b) for t, b, kind in be.events if kind == want], set(be.chunk_sizes), problems))
+    try:
+        os.chdir(d)
+        with contextlib.redirect_stdout(io.StringIO()), contextlib.redirect_stderr(io.StringIO()), patched_time(sim):
+            asyncio.run(go())
+            pl = Fr(U.RateLimitedIO.PAUSE_LIMIT)
+    finally:
+        os.chdir(cwd)
+        shutil.rmtree(d, ignore_errors=True)
+    return results, pl
+
+
+def check_sequence_case(case, rep):
+    results, PL = run_sequence_case(case)
+    n = case['n']
+    rep.case(('sequence', n, [(s_['command'], s_['L'], s_['sizes']) for s_ in case['steps']]), nontrivial=True)
+    rep.count('command sequence: ' + ' -> '.join(f'{s_["command"]}@{s_["L"]}' for s_ in case['steps']))
+    found = False
+    plan = ', then '.join(f'{s_["command"]} at {s_["L"]} B/s' for s_ in case['steps'])
+    for k, (step, (events, chunks, problems)) in enumerate(zip(case['steps'], results)):
+        L = Fr(step['L'])
+        if problems:
+            found = True
+            rep.violations.append({'what': f'one Repository object, {n} connection(s), {plan}: in command #{k + 1} {problems[0]} ({len(problems)} such)',
+                                   'signature': {'kind': 'command_sequence_data', 'command': step['command']}, 'replay': case})
+        if not events:
+            rep.disagreements.append({'what': f'command sequence: {step["command"]} transferred nothing through the backend streams', 'replay': case})
+            continue
+        # each command is judged for ITS OWN limit; d_max is the transfer chunk that limit implies, at most L/4
+        dmax = min(Fr(max(step['L'] // (n * 16), 1)), L / 4)
+        burst = L * PL + (n + 1) * dmax
+        best = max_window_excess_linear(events, L, burst)
+        if best[0] > (L * best[2] + burst) / 10 ** 6:
+            ex, t, T, by = best
+            found = True
+            rep.violations.append({
+                'what': (f'one Repository object, {n} connection(s), {plan}: during command #{k + 1} ({step["command"]} with rate limit {step["L"]} B/s) '
+                         f'the backend saw {by} payload bytes within {float(T):.6g} s of (virtual) time (pieces of up to {max(chunks) if chunks else "?"} bytes); '
+                         f'allowed for this command L*T + L*PAUSE_LIMIT + (n+1)*d_max = {float(L * T + burst):.6g}'),
+                'signature': {'kind': 'command_sequence_window', 'command': step['command']}, 'replay': case})
+    return found
+
+
 def command_probe(rep, rng, rounds):
     """every command x every way a backend may go over the stream (once; again after a rewind; the real S3 adapter), [rounds] times"""
     for command in ('upload_objects', 'download_objects', 'snapshot', 'restore'):
@@ -1204,6 +1342,8 @@ def command_probe(rep, rng, rounds):
                 check_command_case(case, rep)
                 if command == 'upload_objects' and variant == 'again':
                     rep.sample({k: (v if k != 'sizes' else v[:12] + ['...']) for k, v in case.items()})
+    for i in range(4 * rounds):
+        check_sequence_case(gen_sequence_case(rng, [True, False, None, True][i % 4]), rep)
 
 
 def sc_public(sc):
@@ -1273,6 +1413,8 @@ def replay(ctx, obj):
         exercise([dict(case)], rep, ctx.rng)
     elif case.get('probe') == 'command':
         check_command_case(case, rep)
+    elif case.get('probe') == 'command_sequence':
+        check_sequence_case(case, rep)
     elif case.get('probe') == 'real_threads' and 'readers' in case:
         real_threads_check(rep, case['L'], case['readers'], case['writers'], case['d'], case['seconds'])
     else:
